@@ -19,7 +19,10 @@
 pub(crate) struct ID(usize);
 impl ID {
     pub(super) fn new() -> Self {
+        #[cfg(not(ohkami_verif))]
         use std::sync::atomic::{AtomicUsize, Ordering};
+        #[cfg(ohkami_verif)]
+        use {crate::__verif__::atomic::AtomicUsize, std::sync::atomic::Ordering};
 
         static ID: AtomicUsize = AtomicUsize::new(1);
         Self(ID.fetch_add(1, Ordering::Relaxed))
